@@ -200,7 +200,8 @@ class C14(Prop):
     design_ref = "DESIGN.md section 3, C14"
     rule = ("operation histories (construction, append, extend, insert, +, reflected +, +=, slicing, repetition; on a "
             "TagList and through a Tag) over an argument pool of nested lists/tuples/TagLists, None, numbers, strings, "
-            "tags, HTML(), dependencies, self-rendering and tagifiable objects and unsupported objects at depth 0-3: "
+            "tags, HTML(), dependencies, self-rendering (by class or per instance) and tagifiable objects and unsupported objects "
+            "at depth 0-3, containers possibly aliased, += through a second name, argument lists kept and re-inspected: "
             "every history up to the bound (TLC) and seeded random histories up to 30 operations with nesting to "
             "depth 6.  Non-trivial: some argument is a container or is dropped/converted/rejected.")
     assumptions = [
